@@ -41,6 +41,9 @@ import (
 //   ack                        s acknowledges its oldest outstanding delivery completely
 //                              (PUBACK, or PUBREC + PUBCOMP) - releases a deferred message
 //   rc                         s's connection drops and s reconnects, resuming the session
+// With ",resub" one SUBSCRIBE replacing x/+ by the same filter with other options is offered
+// before the publish, and rc may follow it: the options of the LAST subscribe decide, also
+// after the session was resumed.
 // QoS, identifiers and retain flag are judged on EVERY PUBLISH packet that carries the
 // message: the first transmission (live, or "deferred" when it was held behind Receive
 // Maximum and written later from the stored copy) and every retransmission ("resend")
@@ -422,7 +425,8 @@ func c04TxRun(arg string) explore.HistFn {
 	if ver == 5 && strings.Contains(arg, "rm1") {
 		rm = 1
 	}
-	full := strings.Contains(arg, "full") // full option product also for the second filter
+	full := strings.Contains(arg, "full")   // full option product also for the second filter
+	resub := strings.Contains(arg, "resub") // one replacing SUBSCRIBE of x/+ (other options) and a resume before the publish
 	maxPub, maxAck, maxRc := 1, 1, 1
 	if rm > 0 {
 		maxPub, maxAck = 2, 2
@@ -444,7 +448,7 @@ func c04TxRun(arg string) explore.HistFn {
 		orc := &c04Oracle{h: h, cnt: cnt, ver: ver, mq: mq}
 		subs := map[string]c04Sub{}
 		var out []*c04Out // publish order
-		conn, npub, nack, nrc := 1, 0, 0, 0
+		conn, npub, nack, nrc, nresub := 1, 0, 0, 0, 0
 		h.connect("p", world.ConnectPacket("p", 5, true))
 		h.connect("s", connectPacket())
 		pid := uint16(100)
@@ -509,6 +513,10 @@ func c04TxRun(arg string) explore.HistFn {
 					pk.Props = ref.Props{{ID: ref.PSubscriptionID, Num: uint32(id)}}
 				}
 				got := h.do("s", pk)
+				if _, had := subs[filter]; had {
+					nresub++
+					h.count(cnt, "replaced_subscriptions", 1)
+				}
 				subs[filter] = c04Sub{q, id, rap}
 				if len(got) != 1 || got[0].Type != ref.SUBACK || len(got[0].ReasonCodes) != 1 || got[0].ReasonCodes[0] != q {
 					h.violate(fmt.Sprintf("c04:suback:granted:v%d", ver), "SUBSCRIBE %s requested QoS %d, server maximum %d: got %v", filter, q, mq, got)
@@ -516,6 +524,9 @@ func c04TxRun(arg string) explore.HistFn {
 			case "pub":
 				q := f[2][0] - '0'
 				npub++
+				if nresub > 0 && nrc > 0 {
+					h.count(cnt, "publish_after_replaced_subscription_and_resume", 1)
+				}
 				o := &c04Out{tag: "m" + itoa(npub), pubQos: q, retain: f[3] == "1"}
 				out = append(out, o)
 				pid++
@@ -600,6 +611,22 @@ func c04TxRun(arg string) explore.HistFn {
 				}
 			}
 		}
+		if cur, has1 := subs[c04Filters["1"]]; resub && npub == 0 && nrc == 0 && nresub == 0 && has1 && len(subs) == 1 {
+			// replace x/+ by the same filter with other options
+			for q := 1; q <= 2; q++ {
+				ids, raps := []int{0, 3}, []bool{false, true}
+				if ver < 5 {
+					ids, raps = []int{0}, []bool{false}
+				}
+				for _, id := range ids {
+					for _, rap := range raps {
+						if (c04Sub{byte(q), id, rap}) != cur && (byte(q) != cur.qos || full) {
+							next = append(next, fmt.Sprintf("sub:1:%d:%d:%s", q, id, map[bool]string{false: "0", true: "1"}[rap]))
+						}
+					}
+				}
+			}
+		}
 		if npub < maxPub && len(subs) > 0 {
 			for q := 1; q <= 2; q++ {
 				for _, r := range []string{"0", "1"} {
@@ -618,11 +645,11 @@ func c04TxRun(arg string) explore.HistFn {
 		if ackable && nack < maxAck {
 			next = append(next, "ack")
 		}
-		if len(out) > 0 && nrc < maxRc {
+		if (len(out) > 0 || nresub > 0) && nrc < maxRc {
 			next = append(next, "rc")
 		}
 		sort.Strings(next)
-		key := h.W.State() + fmt.Sprintf("|model:%v|%v|%d,%d,%d", subs, outs, npub, nack, nrc)
+		key := h.W.State() + fmt.Sprintf("|model:%v|%v|%d,%d,%d,%d", subs, outs, npub, nack, nrc, nresub)
 		r := h.finish(key, next)
 		r.Counters = cnt
 		return r
@@ -640,11 +667,11 @@ func init() {
 		c.Rep.Assumption("a publish whose QoS exceeds the server maximum may be refused; if it is delivered its QoS must follow the formula")
 		// the small sequence scenarios first, so that a slow machine caps the big product last
 		type scen struct{ name, arg string }
-		scens := []scen{{"c04tx", "v5,rm0,full"}, {"c04tx", "v5,rm1"}, {"c04tx", "v4,rm0"}, {"c04", "v5,mq2,pool221,lite,ids3,ret"}}
+		scens := []scen{{"c04tx", "v5,rm0,full"}, {"c04tx", "v5,rm1"}, {"c04tx", "v4,rm0"}, {"c04tx", "v5,rm0,resub"}, {"c04tx", "v4,rm0,resub"}, {"c04", "v5,mq2,pool221,lite,ids3,ret"}}
 		args := []string{"v5,mq2,ids3", "v5,mq1,ids3", "v5,mq0,ids3", "v4,mq2", "v4,mq1", "v4,mq0"}
 		per := 20 * time.Second
 		if !c.Quick() {
-			scens = []scen{{"c04tx", "v5,rm0,full"}, {"c04tx", "v5,rm1,full"}, {"c04tx", "v4,rm0"}, {"c04", "v5,mq2,pool232,lite,ids3,ret"}, {"c04", "v5,mq2,pool331,lite,ids3,ret"}, {"c04", "v5,mq1,pool221,lite,ids3,ret"}}
+			scens = []scen{{"c04tx", "v5,rm0,full"}, {"c04tx", "v5,rm1,full"}, {"c04tx", "v4,rm0"}, {"c04tx", "v5,rm0,resub,full"}, {"c04tx", "v4,rm0,resub"}, {"c04", "v5,mq2,pool232,lite,ids3,ret"}, {"c04", "v5,mq2,pool331,lite,ids3,ret"}, {"c04", "v5,mq1,pool221,lite,ids3,ret"}}
 			args = []string{"v5,mq2,pool311,ids3", "v5,mq1,pool311,ids3", "v5,mq0,pool311,ids3", "v4,mq2,pool321", "v4,mq1,pool321", "v4,mq0,pool321"}
 			per = 170 * time.Second
 		}
